@@ -166,6 +166,8 @@ def run(ctx):
         jobs.append(("manifest", i))
     for i in range(N["nest"]):
         jobs.append(("nest", i))
+    for i in range(14):
+        jobs.append(("cycle", i))
     # every catalogue expression, alone, on a record whose fields have known types (plus seeded compositions)
     n_expr = len(fuzzgen.EXPRS) + (60 if quick else 2000)
     for i in range(n_expr):
@@ -196,6 +198,25 @@ def run(ctx):
                 files[root_rel + "/second.yaml"] = fuzzgen.arbitrary_defs(r, r.randint(1, 4))
         elif kind == "manifest":
             files[root_rel + "/_package.yml"] = fuzzgen.mutate_manifest(pkg.ns, r)
+        elif kind == "cycle":
+            forms = [("a", "b", None), ("a", "b + 1", None), ("a", "c", "b"), ("a", "a", None), ("a", "a + 1", None)]
+            pats = ["int x", "int", "_", "float y", "null", "string s"]
+            if i < 5:
+                x, y, z = forms[i]
+                body = "    a: %s\n    b: %s\n    c: %s\n" % (y if x == "a" else "1", "a", z or "1")
+            else:
+                pat = pats[(i - 5) % len(pats)]
+                tgt = "o" if pat in ("null",) else "u"
+                other = {"int x": "float: 0", "int": "float: 0", "_": None, "float y": "int: 0", "null": "int: 0", "string s": "int: 0"}[pat]
+                sw = "    a:\n      !switch %s:\n        %s: %s\n" % ("u2" if "string" in pat else tgt if tgt == "o" else "u", pat, "b" if (i // len(pats)) % 2 == 0 else "a")
+                if other and not (pat == "null"):
+                    sw += "        %s\n" % other.replace("float", "float" if "string" not in pat else "int")
+                if pat == "null":
+                    sw += "        int: 0\n"
+                body = sw + "    b: a\n"
+            files = {root_rel + "/_package.yml": "namespace: %s\n" % pkg.ns,
+                     root_rel + "/model.yml": "Cy: !record\n  fields:\n    u: [int, float]\n    u2: [int, string]\n    o: int?\n  computedFields:\n" + body}
+            desc += " computed-field cycle %d" % i
         elif kind == "expr":
             ex = fuzzgen.EXPRS[i] if i < len(fuzzgen.EXPRS) else fuzzgen.compose_expr(r)
             exq = '"' + ex.replace("\\", "\\\\").replace('"', '\\"') + '"'
